@@ -128,5 +128,23 @@ impl Method for LowestIndex {
 		proof { lemma_iter_next(pre_it, it0__, &self.window, vw); }
 //@end
 }
+
+// C08: on a constant stream the newest element is always the newest extremum: the index is exactly 0
+pub proof fn highest_index_const_step(pre: HighestIndex, v: R, post: HighestIndex, out: PeriodType)
+	requires pre.inv(), pre.window.view() =~= konst(pre.window.view().len(), v), HighestIndex::step(&pre, &v, &post, &out)
+	ensures post.window.view() =~= konst(pre.window.view().len(), v), out == 0
+{
+	let s = post.window.view();
+	assert(s =~= konst(pre.window.view().len(), v));
+	if out > 0 { assert(s[s.len() - 1]@ < post.value@); }
+}
+pub proof fn lowest_index_const_step(pre: LowestIndex, v: R, post: LowestIndex, out: PeriodType)
+	requires pre.inv(), pre.window.view() =~= konst(pre.window.view().len(), v), LowestIndex::step(&pre, &v, &post, &out)
+	ensures post.window.view() =~= konst(pre.window.view().len(), v), out == 0
+{
+	let s = post.window.view();
+	assert(s =~= konst(pre.window.view().len(), v));
+	if out > 0 { assert(s[s.len() - 1]@ > post.value@); }
+}
 } // verus!
 fn main() {}
